@@ -1,5 +1,6 @@
 import TextxVerif.Wire
 import TextxVerif.LoadTree
+import TextxVerif.LoadTreePinned
 /-! JSON decoding / encoding for the load-tree driver (compiled with the library so that
 `lean --run Drivers/LoadTree.lean` starts fast). 
 ops:
@@ -10,6 +11,8 @@ ops:
      optional "then":[Load…]: later attempts with the same classes, one after the other (`runNext` on
      `runHist`: the state the earlier attempts left, own event lists; hooks may start loads[k] again)
       → additionally "then":[{"ok":bool,"events":[…],"final":[…]}…]
+  {"op":"run_pinned","nclasses":n,"loads":[Load…]} → {"ok","events","final","restored"}: the same tree on the machine
+      with the bookkeeping of the pinned code (`LoadTreePinned.lean`)
   {"op":"kwargs","attrs":[…],"assigned":[…],"contained":bool,"extras":[…],"ops"?:[[isSet,name]…]} → {"keys":[…]}
 Load  = {"pid","classes":[…],"syntax_ok","immut","root":OT,"pre"?:Hook,"imports":[Load…],
          "resolve":[Hook…],"unresolved","oprocs":[Hook…],"mproc":Hook}
@@ -120,6 +123,19 @@ def handle (j : Json) : Json :=
         ("restored", toJson (cs.map fun c => decide ((r.1.core c).cur = .real c))),
         ("kw", toJson kws)] ++ (if thens.isEmpty then [] else [("then", toJson later)]))
     | _, _, _, _ => badOp
+  | some "run_pinned" =>
+    -- the machine with the pinned bookkeeping (`LoadTreePinned.lean`); for experiments against the pinned tree
+    match getNat? j "nclasses", (getArr? j "loads").bind (fun a => a.toList.mapM parseLoad) with
+    | some n, some (L :: Ls) =>
+      let table := L :: Ls
+      let r := Pinned.runFP table (table.length + 1) L (cleanState n)
+      let cs := List.range n
+      Json.mkObj [
+        ("ok", toJson r.2),
+        ("events", evsJson r.1.log),
+        ("final", snapJson (snapOf cs r.1)),
+        ("restored", toJson (cs.map fun c => decide ((r.1.core c).cur = .real c)))]
+    | _, _ => badOp
   | some "kwargs" =>
     match kwOne j with
     | some keys => Json.mkObj [("keys", keys)]
